@@ -596,6 +596,12 @@ func (e *Engine) WriteBaseline(verifDir string) int {
 			uniq = append(uniq, n)
 		}
 	}
+	if bad > 0 && os.Getenv("TURNVC_BASELINE_FORCE") == "" {
+		// never silently shrink the baseline: an obligation that stopped discharging is either a regression of the
+		// engine/contracts or a change of the code, and must be looked at first
+		fmt.Printf("baseline NOT written: %d obligations not discharged (set TURNVC_BASELINE_FORCE=1 to write anyway)\n", bad)
+		return 1
+	}
 	os.MkdirAll(filepath.Join(verifDir, "baseline"), 0o755)
 	b, _ := json.MarshalIndent(uniq, "", " ")
 	os.WriteFile(filepath.Join(verifDir, "baseline", "obligations.json"), b, 0o644)
